@@ -147,6 +147,10 @@ class Session:
     def violation(self, mech, detail):
         self.violated = True
         self.log.append((self.b.cycle, "VIOLATION %s: %s" % (mech, detail)))
+        seen = self.res.__dict__.setdefault("_c46_reported", set())
+        if mech in seen:
+            return          # one report per mechanism and case: Result keeps 20 violations, a new mechanism must not be crowded out
+        seen.add(mech)
         self.res.violation(mech, "session %d (mps=%d ep=%d %s) cycle %d: %s" % (
             self.index, self.mps, self.ep, "saturated" if self.clean else "hostile", self.b.cycle, detail))
 
@@ -162,27 +166,27 @@ class Session:
         budget = 4000 + total_words * 40 + len(self.lengths) * 600
         b = self.b = Bench(dut, domain="ss", freq=125e6, max_cycles=budget + 200)
         st, tx, hin, hout = dut.stream, itf.tx, itf.handshakes_in, itf.handshakes_out
-        sigs = [st.valid, st.ready, st.last, st.payload, tx.valid, tx.ready, tx.last, tx.first, tx.payload, itf.tx_zlp, itf.tx_length,
+        sigs = [st.valid, st.ready, st.last, st.payload, tx.valid, tx.ready, tx.last, tx.payload, itf.tx_zlp, itf.tx_length,
                 itf.tx_sequence_number, itf.tx_endpoint_number, hout.send_ack, hout.send_stall, hout.send_nrdy, hout.send_erdy,
-                hout.endpoint_number, hout.ready, hout.done, hin.ack_received, hin.endpoint_number, hin.number_of_packets,
-                hin.next_sequence, hin.retry_required, itf.ep_reset]
+                hout.endpoint_number, hout.ready, hout.done]
         b.watch(*sigs)
         res.bin("mps_%d" % mps)
         res.bin("profile_saturated" if self.clean else "profile_hostile")
         res.event("sessions")
 
         # ---------------- model of the input side: expected packets
-        exp = []            # dicts: data(bytes), t (cycle complete), zlp(bool), ack_cycle_race(bool)
+        exp = []            # dicts: data (bytes; b"" = ZLP), t (cycle in which the packet became complete), race (see complete_packet)
         cur = bytearray()
         M = self.M = {"accepted_bytes": 0, "last_ack_cycle": -10, "producer_done": False, "words_left": total_words,
                       "pause": False, "offering": False, "erdy_blocked_by_nrdy": -1, "eta": None}
 
         # ---------------- observed output side
-        events = []         # chronological: ("dp", dict) / ("nrdy", cyc) / ("erdy", cyc) / ("hs_done", kind, cyc) / ("tx_start", cyc)
-        txs = {"in_packet": False, "words": None, "hdr": None, "prev": None, "nwords": 0, "stalled_last": False, "dead": False}
-        hs = {"busy": 0, "kind": None, "ready": 1}
+        events = []         # chronological: ("tx_start", cyc) / ("dp", dict) / ("nrdy" | "erdy", cyc, endpoint field) / ("hs_done", cyc)
+        txs = {"in_packet": False, "words": None, "hdr": None, "prev": None, "dead": False}
+        hs = {"kind": None}
 
         def complete_packet(last_flag, cyc):
+            # race: a short packet whose `last` word is accepted in the very cycle of the acknowledging ACK TP
             exp.append({"data": bytes(cur), "t": cyc, "race": cyc == M["last_ack_cycle"] and len(cur) < mps})
             self.log.append((cyc, "input packet %d complete: %d bytes%s" % (len(exp) - 1, len(cur), " +ZLP" if len(cur) == mps and last_flag else "")))
             if len(cur) == mps:
@@ -348,7 +352,6 @@ class Session:
             while True:
                 # what will be on the bus in the coming cycle is unknown; use what is known about the current packet
                 words_done = len(txs["words"]) if txs["in_packet"] else 0
-                hdr_len = txs["hdr"]["len"] if txs["in_packet"] and txs["hdr"] else 0
                 exp_len = self.cur_expected_len()
                 nwords = max(1, (exp_len + 3) // 4)
                 # the word offered in the coming cycle is the last one if all but one have been transferred
@@ -416,9 +419,6 @@ class Session:
 
     # ------------------------------------------------------------------ the host
     def host(self, dut, exp, events, M):
-        b, rng, res = self.b, self.rng, self.res
-        itf = dut.interface
-        hin = itf.handshakes_in
         H = self.host_state
         H.update(seq=0, flow=False, nrdy_cycle=None, ev=0, delivered=0, last_dp=None, in_sync=True, acks_since_reset=0, zlp_flag=None,
                  zlp_retried=False, prev_data=None, first_kind="in", cur_zlp_standalone=False)
@@ -460,9 +460,8 @@ class Session:
                 k = rng.random()
                 other = rng.choice([e for e in range(16) if e != self.ep])
                 if k < 0.15:
-                    # STATUS TP (no ack strobe) carrying our endpoint number and tempting fields
+                    # STATUS TP (no ack strobe), also with our endpoint number
                     b.set(hin.status_received, 1); b.set(hin.endpoint_number, rng.choice([self.ep, other]))
-                    b.set(hin.number_of_packets, rng.choice([0, 1])); b.set(hin.next_sequence, (H["seq"] + 1) & 31)
                     self._tp_active = True
                 else:
                     seq = rng.choice([(H["seq"] + 1) & 31, (H["seq"] + 1) & 31, H["seq"], rng.randrange(32)])
